@@ -594,6 +594,19 @@ class Gen:
         for _ in range(ch.weighted([(2, 0), (3, 1), (2, 2)])):
             m["procs"].append(self.procedure(m, 0))
         m["procs"].extend(m.pop("_pending_procs"))
+        if self.cfg.get("constructors"):
+            # an overridden structure constructor: a generic interface named like a type of this module
+            for d in [d for d in m["decls"] if d["d"] == "type" and not d.get("abstract")][:1]:
+                if ch.bool(1, 2):
+                    fn = self.name("mk")
+                    arg = self.name("a")
+                    m["procs"].append({"k": "function", "name": fn, "args": [arg], "prefix": [], "result": None,
+                                       "rettype": {"base": "type", "proto": d["name"]},
+                                       "decls": [self._simple_decl({"base": "integer", "kind": None}, arg, intent="in")],
+                                       "exec": [], "procs": [], "uses": [], "doc": self.doc(("procedure", fn))})
+                    m["decls"].append({"d": "interface", "form": "generic", "name": d["name"], "modprocs": [fn], "bodies": [],
+                                       "doc": self.doc(("interface", d["name"])), "access": d.get("access"),
+                                       "access_how": "attr"})
         if m.get("_outside"):
             m["uses"].append({"module": "xt_lib", "nature": None, "only": [[n, None] for n in m.pop("_outside")], "renames": []})
         if self.cfg["access"]:
